@@ -1,0 +1,24 @@
+//go:build verif
+
+package isobmff
+
+import (
+	"bufio"
+	"bytes"
+	"sync"
+)
+
+// VerifResetPools replaces the bufio.Reader pool by a fresh one (quiescent points only).
+func VerifResetPools() {
+	readerPool = sync.Pool{New: func() interface{} { return bufio.NewReaderSize(nil, minBufReaderSize) }}
+}
+
+// VerifPoisonPools makes the pool hand out readers whose internal buffer is pre-filled with
+// fill, as if left over from reading another stream.
+func VerifPoisonPools(fill byte) {
+	readerPool = sync.Pool{New: func() interface{} {
+		br := bufio.NewReaderSize(bytes.NewReader(bytes.Repeat([]byte{fill}, minBufReaderSize)), minBufReaderSize)
+		_, _ = br.Peek(minBufReaderSize)
+		return br
+	}}
+}
